@@ -264,7 +264,8 @@ def enumerate_candidates(p, ctx=None, ops=None, rich=True):
         if isinstance(s, C.CallCursor):
             add("inline", L, lambda s=s: S.inline(p, s))
             for nm2, q in ctx.get("eqv_procs", {}).items():
-                add("call_eqv", f"{L},{nm2}", lambda s=s, q=q: S.call_eqv(p, s, q), target=nm2)
+                add("call_eqv", f"{L},{nm2}", lambda s=s, q=q: S.call_eqv(p, s, q), target=nm2,
+                    foreign=nm2.endswith("!"))
         if isinstance(s, C.WindowStmtCursor):
             add("inline_window", L, lambda s=s: S.inline_window(p, s))
         if isinstance(s, C.AssignConfigCursor):
